@@ -29,6 +29,7 @@ type frame struct {
 	blockReach map[*ssa.BasicBlock]string
 	blockState map[*ssa.BasicBlock]*State // state at block entry (after phis/havoc)
 	inExc  bool
+	havocExceptional bool // havoc for an exceptional edge (stable-on-return ghosts are not stable)
 }
 
 type exitEdge struct {
@@ -210,21 +211,34 @@ func (fr *frame) mergeEdges(edges []inEdge, label string) (string, *State) {
 	}
 	sort.Strings(keys)
 	for _, k := range keys {
-		t := ft.heapTerm(edges[len(edges)-1].st, k)
+		raw := ft.rawHeap(edges[len(edges)-1].st, k)
 		same := true
 		for _, e := range edges {
-			if ft.heapTerm(e.st, k) != t {
+			if ft.rawHeap(e.st, k) != raw {
 				same = false
 			}
 		}
 		if same {
-			st.heaps[k] = t
+			if !strings.HasPrefix(raw, "\x00I") {
+				st.heaps[k] = raw
+			}
 			continue
 		}
-		for i := len(edges) - 2; i >= 0; i-- {
-			t = ite(edges[i].cond, ft.heapTerm(edges[i].st, k), t)
+		// lazily merged value
+		k := k
+		raws := make([]string, len(edges))
+		conds := make([]string, len(edges))
+		for i, e := range edges {
+			raws[i] = ft.rawHeap(e.st, k)
+			conds[i] = e.cond
 		}
-		st.heaps[k] = ft.define(k, ft.e.u.heaps[k], t)
+		st.heaps[k] = ft.lazy(func() string {
+			t := ft.forceRaw(raws[len(raws)-1])
+			for i := len(raws) - 2; i >= 0; i-- {
+				t = ite(conds[i], ft.forceRaw(raws[i]), t)
+			}
+			return ft.define(k, ft.e.u.heaps[k], t)
+		})
 	}
 	// defer stacks: one must be a prefix of the other (conditionally registered
 	// defers carry their own condition)
@@ -515,6 +529,8 @@ func (fr *frame) execInstr(ins ssa.Instruction, st *State, reach string, xedges 
 		if ft.e.wantSafety(fr) {
 			fr.oblig("safe/mapwrite", []string{"C20"}, t.Pos(), ft.e.lineText(t.Pos()), reach, not(eq(m.S, "null")))
 		}
+		fr.escape(st, Val{T: v}, 0)
+		fr.escape(st, Val{T: k}, 0)
 		d := ft.heapTerm(st, dom)
 		ft.setHeap(st, dom, store(d, m.S, store(sel(d, m.S), k.S, "true")))
 		vv := ft.heapTerm(st, val)
@@ -1219,6 +1235,15 @@ func (fr *frame) siteAsserts(call *ssa.Call, args []Val, st *State, reach string
 			if i < len(call.Call.Args) {
 				env.vars[fmt.Sprintf("arg%d", i)] = SVal{T: ft.termOf(v, call.Call.Args[i].Type()), Typ: call.Call.Args[i].Type()}
 			}
+		}
+		if a.Kind == "assign" {
+			v, err := env.eval(a.E)
+			if err != nil {
+				e.contractError(a, err)
+				continue
+			}
+			ft.setHeap(st, e.ghostHeap(a.Label), v.T.S)
+			continue
 		}
 		goal, err := env.evalBool(a.E)
 		if err != nil {
